@@ -342,7 +342,7 @@ func genGcs(g *core.Gen) {
 		0xfffffffffffffffe, 0xffffffffffffffff, 0xffffffff00000000, 0x00000000ffffffff, 0xfffffffeffffffff, 784931, 784931 * 8000}
 	for _, v := range edges {
 		for _, nm := range edges {
-			g.Case("fr-edge", v != 0 && nm != 0, fmt.Sprintf("C20 fr %d %d", v, nm))
+			rec(g, "fr-edge", v != 0 && nm != 0, fmt.Sprintf("C20 fr %d %d", v, nm))
 		}
 	}
 	for i := 0; i < g.N(3000, 200000); i++ {
@@ -355,7 +355,7 @@ func genGcs(g *core.Gen) {
 		case 2:
 			nm = uint64(r.Intn(30000)) * uint64(r.Pick(784931, 1<<20, 1<<32-1, 1, 1<<32))
 		}
-		g.Case("fr-rand", v != 0 && nm != 0, fmt.Sprintf("C20 fr %d %d", v, nm))
+		rec(g, "fr-rand", v != 0 && nm != 0, fmt.Sprintf("C20 fr %d %d", v, nm))
 	}
 	// raw Golomb-Rice reads over arbitrary bytes
 	for i := 0; i < g.N(1500, 50000); i++ {
@@ -371,7 +371,7 @@ func genGcs(g *core.Gen) {
 				}
 			}
 		}
-		g.Case("rd", len(d) > 0, fmt.Sprintf("C20 rd %d %s %d", p, hexTok(d), r.Intn(50)))
+		rec(g, "rd", len(d) > 0, fmt.Sprintf("C20 rd %d %s %d", p, hexTok(d), r.Intn(50)))
 	}
 	genGcsFilters(g)
 	if moreGcs != nil {
@@ -452,7 +452,7 @@ func genGcsFilters(g *core.Gen) {
 				qs[j] = r.Bytes(r.Intn(12))
 			}
 		}
-		g.Case("gcs", n > 0 && nq > 0, fmt.Sprintf("C20 gcs %d %d %s %s %s", p, m, keyTok(r), itemsTok(items), itemsTok(qs)))
+		rec(g, "gcs", n > 0 && nq > 0, fmt.Sprintf("C20 gcs %d %d %s %s %s", p, m, keyTok(r), itemsTok(items), itemsTok(qs)))
 	}
 }
 
@@ -525,7 +525,7 @@ func genGcsMore(g *core.Gen) {
 			}
 		}
 		qs = append(qs, r.Bytes(5))
-		g.Case("gcs-collide32", len(qs) > 1, fmt.Sprintf("C20 gcs 19 784931 %s *%dx%d+%d %s",
+		rec(g, "gcs-collide32", len(qs) > 1, fmt.Sprintf("C20 gcs 19 784931 %s *%dx%d+%d %s",
 			hex.EncodeToString(key[:]), n, mult, add, itemsTok(qs)))
 	}
 	// --- large sets
@@ -545,7 +545,7 @@ func genGcsMore(g *core.Gen) {
 			binary.LittleEndian.PutUint64(b[:], uint64(r.Intn(2*n))*mult+add)
 			qs = append(qs, append([]byte{}, b[:]...))
 		}
-		g.Case("gcs-large", true, fmt.Sprintf("C20 gcs %d %d %s *%dx%d+%d %s", p, m, keyTok(r), n, mult, add, itemsTok(qs)))
+		rec(g, "gcs-large", true, fmt.Sprintf("C20 gcs %d %d %s *%dx%d+%d %s", p, m, keyTok(r), n, mult, add, itemsTok(qs)))
 	}
 	// --- N at the CompactSize boundaries of the N prefix
 	nb := []int{252, 253, 254}
@@ -561,7 +561,7 @@ func genGcsMore(g *core.Gen) {
 		mult, add := r.U64()|1, r.U64()
 		var b [8]byte
 		binary.LittleEndian.PutUint64(b[:], uint64(r.Intn(n))*mult+add)
-		g.Case("gcs-nprefix", true, fmt.Sprintf("C20 gcs 19 784931 %s *%dx%d+%d %s,%s", keyTok(r), n, mult, add,
+		rec(g, "gcs-nprefix", true, fmt.Sprintf("C20 gcs 19 784931 %s *%dx%d+%d %s,%s", keyTok(r), n, mult, add,
 			hex.EncodeToString(b[:]), hexTok(r.Bytes(3))))
 	}
 	// --- MatchAny strategy threshold: len(queries) = N/2 - 1, N/2, N/2 + 1
@@ -580,7 +580,7 @@ func genGcsMore(g *core.Gen) {
 					qs[j] = r.Bytes(1 + r.Intn(6))
 				}
 			}
-			g.Case("gcs-anythreshold", nq > 0, fmt.Sprintf("C20 gcs 19 784931 %s %s %s", keyTok(r), itemsTok(items), itemsTok(qs)))
+			rec(g, "gcs-anythreshold", nq > 0, fmt.Sprintf("C20 gcs 19 784931 %s %s %s", keyTok(r), itemsTok(items), itemsTok(qs)))
 		}
 	}
 	// --- Golomb-Rice reads with quotients 62..66 and remainder widths around the byte/word paths of ReadBits
@@ -591,7 +591,7 @@ func genGcsMore(g *core.Gen) {
 			if r.Chance(1, 3) && len(d) > 1 {
 				d = d[:len(d)-1]
 			}
-			g.Case("rd-q64", true, fmt.Sprintf("C20 rd %d %s %d", p, hexTok(d), 2+r.Intn(3)))
+			rec(g, "rd-q64", true, fmt.Sprintf("C20 rd %d %s %d", p, hexTok(d), 2+r.Intn(3)))
 		}
 	}
 	// --- N*M around 2^32 (small quotients need P near 32)
@@ -610,7 +610,7 @@ func genGcsMore(g *core.Gen) {
 				qs[j] = r.Bytes(r.Intn(12))
 			}
 		}
-		g.Case("gcs-nm32", nq > 0, fmt.Sprintf("C20 gcs %d %d %s %s %s", p, m, keyTok(r), itemsTok(items), itemsTok(qs)))
+		rec(g, "gcs-nm32", nq > 0, fmt.Sprintf("C20 gcs %d %d %s %s %s", p, m, keyTok(r), itemsTok(items), itemsTok(qs)))
 	}
 	// --- deserialised filters: well-formed streams with a lying N, truncations, extensions, garbage
 	for i := 0; i < g.N(700, 30000); i++ {
@@ -685,7 +685,7 @@ func genGcsMore(g *core.Gen) {
 			}
 		}
 		if r.Bool() {
-			g.Case("from", len(data) > 0, fmt.Sprintf("C20 from %d %d %s %d %s %s", p, m, hex.EncodeToString(key[:]), n, hexTok(data), itemsTok(qs)))
+			rec(g, "from", len(data) > 0, fmt.Sprintf("C20 from %d %d %s %d %s %s", p, m, hex.EncodeToString(key[:]), n, hexTok(data), itemsTok(qs)))
 		} else {
 			var pre []byte
 			switch r.Intn(10) {
@@ -705,7 +705,7 @@ func genGcsMore(g *core.Gen) {
 			default:
 				pre = []byte{byte(n)} // n < 0xfd here
 			}
-			g.Case("fromn", len(data) > 0, fmt.Sprintf("C20 fromn %d %d %s %s %s", p, m, hex.EncodeToString(key[:]),
+			rec(g, "fromn", len(data) > 0, fmt.Sprintf("C20 fromn %d %d %s %s %s", p, m, hex.EncodeToString(key[:]),
 				hexTok(append(pre, data...)), itemsTok(qs)))
 		}
 	}
@@ -764,7 +764,7 @@ func genGcsMore(g *core.Gen) {
 		if ntx == 0 {
 			txsTok = "!"
 		}
-		g.Case("basic", true, fmt.Sprintf("C20 basic %s %s %s %s", hex.EncodeToString(hdr), txsTok,
+		rec(g, "basic", true, fmt.Sprintf("C20 basic %s %s %s %s", hex.EncodeToString(hdr), txsTok,
 			itemsTok(prevs), hex.EncodeToString(prevHdr)))
 	}
 }
@@ -1098,6 +1098,6 @@ func genBld(g *core.Gen) {
 			fixed = append(fixed, op)
 		}
 		line := fmt.Sprintf("C20 bld %s %s", ctor, strings.Join(fixed, ";"))
-		g.Case("bld", true, line)
+		rec(g, "bld", true, line)
 	}
 }
